@@ -10,5 +10,6 @@ CONSTANTS
  DevKeySites = FALSE
  DevProcForgets = TRUE
  LargeN = 16
+ DevSkipVSWhenNothingToOptimise = FALSE
 INVARIANT OneTemplatePerKey
 CHECK_DEADLOCK FALSE
